@@ -3,6 +3,7 @@
 // specifications - NOT from lib/.  Used by generators, oracles and the cost
 // governor.  No dependency on rapidcheck or on the library under test.
 #pragma once
+#include <map>
 #include "core.hpp"
 
 namespace vf {
@@ -419,6 +420,20 @@ inline bool affordable(const Cost &c, const Tier &t, uint64_t mem_cap = 0) {
   return c.units <= (double)t.budget_ms * 1000.0;
 }
 
+// The governor with a small per-process quota of over-budget calls (up to 12 times the budget) per method: settings
+// of the cost real deployments use (sha512crypt with a six-digit rounds field, sunmd5's cheapest generated setting)
+// are then exercised a few times per shard even in the quick tier instead of never.
+inline bool affordable_q(const Cost &c, const Tier &t, int key) {
+  if (affordable(c, t)) return true;
+  static std::map<int, int> used;
+  Cost r = c;
+  r.units /= 12;
+  if (!affordable(r, t)) return false;
+  if (used[key] >= (t.thorough ? 12 : 3)) return false;
+  used[key]++;
+  return true;
+}
+
 // ---- result grammars (C06), hand-written matchers ---------------------------
 inline bool all_in(const Bytes &s, const char *alphabet) {
   for (unsigned char c : s)
@@ -746,6 +761,15 @@ inline std::string method_must_fail(const Bytes &S) {
       if (p1 == Bytes::npos || p1 == t) return "yescrypt parameter field missing";
       for (size_t i = t; i < p1; i++)
         if (!is_a64((unsigned char)S[i])) return "yescrypt parameter character outside ./0-9A-Za-z";
+      {
+        // the first number selects the flavor: 0 (classic scrypt), 1 (write-once-read-many) or the one read-write
+        // flavor yescrypt defines, spelled 'j'; every other value names a variant no implementation computes, and
+        // hashing it as if it were one of those would disagree with every other implementation
+        size_t pos = t;
+        uint64_t flavor = 0;
+        if (!yvar_decode(S, pos, 0, flavor) || pos > p1) return "yescrypt flavor field cannot be decoded";
+        if (flavor != 0 && flavor != 1 && flavor != 47) return "yescrypt flavor is none of the defined ones";
+      }
       return "";
     }
     default: return "";
